@@ -22,11 +22,14 @@ LEVEL_TEXT = ("Machine-checked proof (Coq, closed under the global context, the 
               "server-to-client), that client-out = server-in and server-out = client-in (same letter, same size "
               "source, same key bytes), that equal keys for two directions would exhibit a truncated-hash collision "
               "on two inputs differing in the letter byte, and that the requested sizes are iv-size-or-block-size / "
-              "key-size / MAC digest size (1..512 over the generated tables).  The model is tied to transport.py by the "
+              "key-size / MAC digest size (1..512 over the generated tables), and that for every kex of the generated "
+              "_kex_info table the selected hash (the class's hash_algo, else the sha1 fallback extracted from "
+              "_compute_key) has digest length 1..64 so the RFC theorem applies.  The model is tied to transport.py by the "
               "translator (letters, sizes, tables) and by a vm_compute differential run against the real code.")
 LEVEL_NOTE = ("Trusted: Coq kernel + vm_compute; hand-written loop model of _compute_key validated by the "
               "correspondence run (toy hash); gen/c04.py; the hash is abstract (fixed output length; collision "
-              "freedom appears only as an explicit premise / conclusion); hash_algo=None fallback to sha1, logging "
+              "freedom appears only as an explicit premise / conclusion); which hash is selected is generated (digest "
+              "length per kex class, fallback) and checked on the real kex classes by the oracle; logging "
               "and the engine construction in _get_engine are outside the model (checked by the oracle only); that "
               "local_cipher of one peer equals remote_cipher of the other is C05's subject.")
 TECHNIQUE = "Coq proof (loop invariant, induction on fuel) + generated tables + vm_compute differential correspondence"
@@ -442,6 +445,16 @@ def check_handshake(ctx, kex, cipher, mac):
 
 # ---------------------------------------------------------------------------------------------
 
+def safe_mismatches(ctx, run_fn, case_type, cases, **kw):
+    """The model run must never stop the implementation-level oracle (e.g. after a fail-closed translator
+    abort the model may not even compile): failures become a correspondence disagreement."""
+    try:
+        return ctx.model_mismatches(run_fn, case_type, cases, **kw)
+    except Exception as e:   # noqa
+        ctx.disagree("model run %s could not be evaluated" % run_fn, model=repr(e)[-600:])
+        return []
+
+
 def run(ctx):
     import paramiko
     rng = ctx.rng
@@ -463,7 +476,10 @@ def run(ctx):
                         "only as explicit premise / conclusion of C04_dir_distinct*",
                         "both peers negotiated the same cipher / MAC for a direction (C05) and hold the same K, H, "
                         "session id (C06/C08)"]
-    ctx.prove()
+    try:
+        ctx.prove()
+    except Exception as e:   # noqa  -- keep the oracle running whatever happens to the build
+        ctx.disagree("proof build raised", model=repr(e)[-600:])
     import time as _time
     _t0 = [_time.time()]
 
@@ -497,8 +513,8 @@ def run(ctx):
                       kind="compute_key-toy-malformed" if malformed else
                       ("compute_key-toy-multi-block" if n > hl else "compute_key-toy-one-block"))
         lap("compute_key cases on the implementation")
-        bad = ctx.model_mismatches("run_compute_key", "(Z * Z * list Z * list Z * Z * Z)",
-                                   [(coq(c), e) for c, e in cases], shard=60)
+        bad = safe_mismatches(ctx, "run_compute_key", "(Z * Z * list Z * list Z * Z * Z)",
+                                   [(coq(c), e) for c, e in cases], shard=40)
         for i in bad[:3]:
             c = cases[i][0]
             ctx.disagree("_compute_key differs from the model", impl=cases[i][1][1:],
@@ -533,6 +549,24 @@ def run(ctx):
         if got != rfc_kdf(hashlib.sha1, K, H, b"C", H, 40):
             ctx.fail("fallback-not-sha1", "kex engine without hash_algo does not fall back to sha1",
                      case={"K": K, "H": H}, observed=got)
+        # ---- 2b. hash selection per kex class of Transport._kex_info (real class as kex_engine) --------
+        cand = {getattr(hashlib, h)().digest_size: getattr(hashlib, h)
+                for h in ("md5", "sha1", "sha224", "sha256", "sha384", "sha512")}
+        kcases = []
+        for i, (kname, cls) in enumerate(paramiko.Transport._kex_info.items()):
+            K, H = gen_K(rng), gen_bytes(rng, [20, 32, 64])
+            letter, n = rng.choice(LETTERS), rng.choice([100, 129, 200])
+            t.K, t.H, t.session_id = K, H, H
+            t.kex_engine = cls.__new__(cls)          # the real class, uninitialised: only hash_algo is read
+            got = t._compute_key(letter, n)
+            declared = getattr(cls, "hash_algo", None) or hashlib.sha1
+            want = rfc_kdf(declared, K, H, letter.encode(), H, n)
+            ctx.count(("kexhash", kname), kind="kex-class-hash")
+            if got != want:
+                ctx.fail("kex-hash-selection", "_compute_key does not use the kex class's hash_algo (sha1 if none)",
+                         case={"kex": kname, "K": K, "H": H, "letter": letter, "n": n}, expected=want, observed=got)
+            seen = [d for d, hf in cand.items() if rfc_kdf(hf, K, H, letter.encode(), H, n) == got]
+            kcases.append((i, [seen[0] if len(seen) == 1 else -1]))
     finally:
         t.sock.close()
 
@@ -597,8 +631,13 @@ def run(ctx):
                         ctx.fail("directions-share-key", "a key is shared between the two directions",
                                  case=dict(case, server_mode=server), observed=sorted(shared)[0])
     lap("activation on the implementation")
-    bad = ctx.model_mismatches("run_requested", "(bool * bool * Z * Z)", [(coq(c), e) for c, e in cases])
-    for i in bad[:3]:
+    bad = safe_mismatches(ctx, "run_table", "tcase",
+                          [(coq(("TReq",) + c), e) for c, e in cases] + [(coq(("TKex", i)), e) for i, e in kcases])
+    for i in [b for b in bad if b >= len(cases)][:3]:
+        j = i - len(cases)
+        ctx.disagree("digest length used for a kex differs from the generated table / fallback",
+                     case={"kex": list(paramiko.Transport._kex_info)[kcases[j][0]]}, impl=kcases[j][1])
+    for i in [b for b in bad if b < len(cases)][:3]:
         c = cases[i][0]
         ctx.disagree("letters / sizes requested by _activate_* differ from the model over the generated table",
                      case={"server_mode": c[0], "outbound": c[1], "cipher": names_c[c[2]], "mac": names_m[c[3]]},
